@@ -177,6 +177,11 @@ def gen_history(rng, tier, flavour=None):
         ops = gen_ops(rng, cfg, b not in started)
         started.add(b)
         lines.append(" ".join([f"req {b} {now} {spec}"] + ops))
+        if b != 9 and ops and rng.random() < 0.2:
+            # an attacker (or stale browser state) replays the most recently issued cookie that no browser holds any more:
+            # right after a clear / reset / size switch that is the identifier just given up
+            now += rng.choice((0, 0, 1, 2))
+            lines.append(f"req 9 {now} old:0" + (" set:61:62" if rng.random() < 0.2 else ""))
         if kind == "files" and loc != "client" and rng.random() < 0.06:
             lines.append(f"gc {now}")
     return lines, not backward
@@ -207,6 +212,24 @@ def special_histories(tier):
     # reset after a huge payload moved the session to the server; move back removes the server copy
     H.append(["new both files 1 100 30", "req 0 1000 jar set:6b:76", "req 0 1001 jar set:6b:r41x40", "req 0 1002 jar reset", "req 9 1003 old:0",
               "req 9 1003 old:1", "req 0 1004 jar set:6b:76", "req 9 1005 old:0", "req 0 1006 jar clear", "req 9 1007 old:0", "req 9 1007 old:1"])
+    # location=both: the old server-side identifier must be unusable after clear / reset / moving back to the cookie,
+    # whether the session is on the server because of on_server(true) or because of its size; and clear of a session
+    # that lives in the cookie must not disturb anything (seeded C06-3: session_dual::clear dispatching on the wrong tag)
+    for kind in ("memory", "files", "network"):
+        for how in (0, 1, 2):
+            H.append([f"new both {kind} {how} 100 30", "req 0 1000 jar set:6b:76 srv:1", "req 0 1001 jar", "req 0 1002 jar clear",
+                      "req 9 1003 old:0", "req 9 1004 old:0 set:61:62", "req 0 1005 jar"])
+            H.append([f"new both {kind} {how} 100 30", "req 0 1000 jar set:6b:r41x40", "req 0 1001 jar clear", "req 9 1002 old:0", "req 0 1003 jar"])
+            H.append([f"new both {kind} {how} 100 30", "req 0 1000 jar set:6b:r41x40 expose:6b", "req 0 1001 jar reset", "req 9 1002 old:0",
+                      "req 0 1003 jar", "req 0 1004 jar srv:1 reset", "req 9 1005 old:0", "req 9 1005 old:1", "req 0 1006 jar"])
+            H.append([f"new both {kind} {how} 100 30", "req 0 1000 jar set:6b:r41x40", "req 0 1001 jar set:6b:76", "req 9 1002 old:0",
+                      "req 0 1003 jar", "req 0 1004 jar set:6b:r42x50", "req 0 1005 jar erase:6b set:61:62", "req 9 1006 old:0", "req 9 1006 old:1"])
+            H.append([f"new both {kind} {how} 100 30", "req 0 1000 jar set:6b:76", "req 1 1000 jar set:6b:r41x40", "req 0 1001 jar clear",
+                      "req 9 1002 old:0", "req 1 1003 jar", "req 0 1004 jar", "req 1 1005 jar clear", "req 9 1006 old:0", "req 9 1006 old:1"])
+            H.append([f"new both {kind} {how} 100 30", "req 0 1000 jar set:6b:76 srv:1", "req 0 1001 jar srv:0", "req 9 1002 old:0", "req 0 1003 jar"])
+    for kind in ("memory", "files"):
+        H.append([f"new server {kind} 1 100 2048", "req 0 1000 jar set:6b:76", "req 0 1001 jar clear", "req 9 1002 old:0",
+                  "req 0 1003 jar set:6b:76", "req 0 1004 jar reset", "req 9 1005 old:0", "req 9 1005 old:1"])
     # clear on a session that only exists client-side; replay of the old client cookie (inherent to client storage)
     H.append(["new both memory 1 100 2048", "req 0 1000 jar set:6b:76", "req 0 1001 jar clear", "req 9 1002 old:0", "req 9 1102 old:0"])
     # short_gc: more than five expired sessions, collected five at a time
@@ -264,7 +287,7 @@ def systematic_histories():
             for how in range(3):
                 for a in alphabet:
                     for b in alphabet:
-                        H.append([f"new {loc} {kind} {how} 50 30", f"req 0 1000 jar set:61:62 {a}", f"req 0 1004 jar {b}", "req 0 1006 jar",
+                        H.append([f"new {loc} {kind} {how} 50 30", f"req 0 1000 jar set:61:62 {a}", f"req 0 1004 jar {b}", "req 9 1005 old:0", "req 0 1006 jar",
                                   "req 0 1024 jar", "req 0 1054 jar", "req 0 1075 jar", "req 9 1076 old:0"])
     return H
 
@@ -487,6 +510,9 @@ def main():
             seen_hist.add(a)
             hist = cases[a:k + 1]
             small = shrink(c, hbin, model, hist) if len(seen_hist) <= 3 else hist
+            if "in the storage" in why and small[-1].startswith("req "):
+                # show the consequence on what a request reads: replay the identifier that should have died
+                small = small + [f"req 9 {small[-1].split()[2]} old:0"]
             rc, o2, _ = c.run_lines(hbin, small, args=(c.scratch,))
             rc, m2, _ = c.run_lines(model, small)
             rc, j2, _ = c.run_lines(model, [f"J {x} ;; {y}" for x, y in zip(small, o2)])
